@@ -8,9 +8,9 @@ import (
 
 // C05 — replies reach only the call that asked, under the right node, at most once.
 //
-// World: 1 full-stack node (id 1) + 1 thin node (id 2). Two calls issued from two goroutines on
-// overlapping configurations: A on {1,2} (quorum call or async), B on {1} (RPC or quorum
-// call). The puppet peer answers any arrived message at any time, in any order, possibly a
+// World: 1 thin node (id 1) + 1 full-stack node (id 2) - the shared node is deliberately NOT the
+// first member of configuration A. Two calls issued from two goroutines on overlapping
+// configurations: A on {1,2} (quorum call or async), B on {2} (RPC or quorum call). The puppet peer answers any arrived message at any time, in any order, possibly a
 // second time (duplicate), possibly after the call has returned or was cancelled. Every reply
 // is stamped with the token of the request that caused it and the producing node.
 
@@ -18,15 +18,19 @@ func c05CheckSeen(c *fsCall) {
 	for id, m := range c.seen {
 		r, ok := m.(*vMsg)
 		vAssert(ok && r != nil, "C05.reply-type")
-		vAssert(r.reqTok == c.req.tok, "C05.reply-for-another-call")
+		// (an assertion id may name several properties, separated by '|')
+		vAssert(r.reqTok == c.req.tok, "C05.reply-for-another-call|C01.reply-set-holds-foreign-reply")
 		vAssert(r.node == id, "C05.reply-under-wrong-node")
 		vAssert(c.seenCount[id] == 1, "C05.more-than-one-reply-per-node")
 	}
 }
 
 func VerifC05(maxMsgs, allowCancel, small int) {
+	vFullStackFirstID, vThinFirstID = 2, 1
 	w := vMixed(1, 1, nil)
+	vFullStackFirstID, vThinFirstID = 0, 0
 	p := w.peers[0]
+	full, thinID := w.nodes[0].id, w.nodes[1].id
 	kindA := ckQC
 	kindB := ckRPC
 	quorumA := 2
@@ -41,7 +45,7 @@ func VerifC05(maxMsgs, allowCancel, small int) {
 	}
 	a := fsNewCall(kindA, 1, quorumA)
 	b := fsNewCall(kindB, 2, 1)
-	cfgB, err := NewRawConfiguration(w.mgr, WithNodeIDs([]uint32{1}))
+	cfgB, err := NewRawConfiguration(w.mgr, WithNodeIDs([]uint32{full}))
 	vAssert(err == nil, "C14.withnodeids")
 	// scripted server: per written message reply / reply twice / hold until the next message
 	// (reordering) / stay silent
@@ -81,7 +85,7 @@ func VerifC05(maxMsgs, allowCancel, small int) {
 	if small == 1 || vChoice("thinAnswers", 2) == 1 {
 		go func() {
 			r := <-w.nodes[1].channel.sendQ
-			w.nodes[1].channel.routeResponse(r.msg.Metadata.MessageID, response{nid: 2, msg: &vMsg{tok: 1002, node: 2, reqTok: a.req.tok}})
+			w.nodes[1].channel.routeResponse(r.msg.Metadata.MessageID, response{nid: thinID, msg: &vMsg{tok: 1002, node: thinID, reqTok: a.req.tok}})
 		}()
 	}
 	vFreezeEnv()
@@ -95,13 +99,13 @@ func VerifC05(maxMsgs, allowCancel, small int) {
 		vReach("B-success")
 		if kindB == ckRPC {
 			r, ok := b.resp.(*vMsg)
-			vAssert(ok && r.reqTok == b.req.tok && r.node == 1, "C05.rpc-got-foreign-reply")
+			vAssert(ok && r.reqTok == b.req.tok && r.node == full, "C05.rpc-got-foreign-reply")
 		}
 	}
 	// message ids handed out by one manager are pairwise distinct
 	for i := 0; i < len(p.wire); i++ {
 		for j := i + 1; j < len(p.wire); j++ {
-			vAssert(p.wire[i].Metadata.MessageID != p.wire[j].Metadata.MessageID, "C05.message-id-reused")
+			vAssert(p.wire[i].Metadata.MessageID != p.wire[j].Metadata.MessageID, "C05.message-id-reused|C01.calls-sharing-a-node-not-separated")
 		}
 		// and each request arrived with its own payload
 		r, ok := p.wire[i].Message.(*vMsg)
